@@ -3,6 +3,7 @@
 package hidx
 
 import (
+	"github.com/cosmos/cosmos-sdk/client"
 	"math/big"
 
 	abci "github.com/cometbft/cometbft/abci/types"
@@ -150,4 +151,20 @@ func MkViewBlock(cfg *TxConfig, height int64, n int) (blk *cmttypes.Block, resul
 		results = append(results, res)
 	}
 	return
+}
+
+// MkBlock / Dump / SameDump: exported for the indexer-service harness (package server).
+func MkBlock(cfg *TxConfig, height int64, n int, pfx string) (*cmttypes.Block, []*abci.ExecTxResult, int) {
+	blk, res, want := mkBlock(cfg, height, n, pfx)
+	return blk, res, len(want)
+}
+
+func Dump(db sdkdb.DB) (keys, vals [][]byte) { return dump(db) }
+
+func SameDump(k1, v1, k2, v2 [][]byte) bool { return sameDump(k1, v1, k2, v2) }
+
+// NewIndexerOn opens an indexer over an existing database (a restarted process).
+func NewIndexerOn(cfg *TxConfig, db sdkdb.DB) *indexer.KVIndexer {
+	ctx := client.Context{}.WithTxConfig(cfg).WithCodec(harnessCodec())
+	return indexer.NewKVIndexer(db, model.NopLogger{}, ctx)
 }
